@@ -309,6 +309,8 @@ def _box(L):
     p = _params_back(L)
     if c == "Numpy":
         a = _np_from(L["dt"], L["shape"], L["d"], L.get("fmt"))
+        if L.get("order") == "F" and a.ndim >= 2:
+            a = numpy.asfortranarray(a)               # column-major buffer, same values (what x.T / asfortranarray hand over)
         if len(L["shape"]) == 0:
             return a[()] if a.dtype.kind in "Mm" else a[()].item()        # a scalar (py::cast of the C++ value)
         return NumpyArray(a, None, p)
